@@ -47,6 +47,10 @@ type zzC11Env struct {
 	nowPOSTRefs int
 	handler     *StreamableHTTPHandler
 	closeFails  bool // closing a session's connection reports an error (a failing EventStore.SessionClosed)
+	connectFails bool // Server.Connect fails for a new session
+	noIDs       bool // ServerOptions.GetSessionID returns "" (session ids suppressed)
+	noServer    bool // getServer returns nil for this request
+	ephemeralClosed int
 }
 
 type zzTimer struct {
@@ -84,6 +88,9 @@ func zzBaseMediaType(v string) string                           { return zzC11.m
 
 func zzConnectStreamable(ctx context.Context, server *Server, transport *StreamableServerTransport, opts *ServerSessionOptions) (*ServerSession, error) {
 	zzC11.connects++
+	if zzC11.connectFails {
+		return nil, errors.New("connect failed")
+	}
 	ss := &ServerSession{server: server, conn: &jsonrpc2.Connection{}}
 	if opts != nil {
 		ss.onClose = opts.onClose
@@ -137,8 +144,19 @@ func zzC11Table() {
 	env := &zzC11Env{timers: map[*time.Timer]*zzTimer{}, media: "application/json"}
 	zzC11 = env
 	srv := &Server{}
-	srv.opts.GetSessionID = func() string { env.minted++; return "NEW" }
-	h := NewStreamableHTTPHandler(func(*http.Request) *Server { return srv }, &StreamableHTTPOptions{DisableLocalhostProtection: true})
+	srv.opts.GetSessionID = func() string {
+		if env.noIDs {
+			return ""
+		}
+		env.minted++
+		return "NEW"
+	}
+	h := NewStreamableHTTPHandler(func(*http.Request) *Server {
+		if env.noServer {
+			return nil
+		}
+		return srv
+	}, &StreamableHTTPOptions{DisableLocalhostProtection: true})
 	ownerA := ""
 	if vBool("aOwned") {
 		ownerA = "u1"
@@ -187,7 +205,18 @@ func zzC11Table() {
 	}
 	env.initFails = vBool("initializeFails")
 	env.closeFails = vBool("closingTheConnectionFails")
+	if method == http.MethodPost && sid == "" {
+		switch vChoice("creation", 4) {
+		case 1:
+			env.connectFails = true
+		case 2:
+			env.noIDs = true
+		case 3:
+			env.noServer = true
+		}
+	}
 	w := &zzRec{hdr: http.Header{}}
+	nBefore := len(h.sessions)
 	h.ServeHTTP(w, req)
 
 	var target *sessionInfo
@@ -203,6 +232,17 @@ func zzC11Table() {
 		vAssert(w.code == http.StatusMethodNotAllowed && len(env.served) == 0, "C11.unsupported-method-405")
 	case sid == "" && method != http.MethodPost:
 		vAssert(w.code == http.StatusBadRequest && len(env.served) == 0 && env.minted == 0, "C11.get-delete-need-session-id")
+	case sid == "" && (env.connectFails || env.noServer):
+		// no session comes into being: nothing is stored, nothing served, no id handed out
+		vAssert(w.code >= 400 && len(env.served) == 0 && len(h.sessions) == nBefore, "C11.failed-creation-leaves-no-session")
+		vAssert(w.hdr.Get(sessionIDHeader) == "", "C11.no-id-issued-without-a-session")
+		vReach("creation-failed")
+	case sid == "" && env.noIDs:
+		// session ids suppressed: the request is served by a session nobody can address — it is not stored and is closed
+		// when the request ends
+		vAssert(env.minted == 0 && env.connects == 1 && len(h.sessions) == nBefore, "C11.unaddressable-session-is-not-stored")
+		vAssert(len(env.served) == 1 && env.served[0].SessionID == "" && len(env.connCloses) == 1, "C11.unaddressable-session-closed-after-the-request")
+		vReach("ephemeral")
 	case sid == "":
 		// POST without id: the only way a session id is minted
 		vAssert(env.minted == 1 && env.connects == 1, "C11.mint-on-post-without-id")
